@@ -72,7 +72,20 @@ def noise_maps():
             "p": {"Hadamard": nm.PhotonLoss(0.25), "Phase": dep},
             "ee": {"CNOT": dep}, "ep": {"CNOT": [dep, nm.PhotonLoss(0.25)]}}
     empty = {"e": dict(), "p": dict(), "ee": dict(), "ep": dict()}
+    if MIXED_PLACEMENT[0]:
+        # control noise BEFORE the gate, target noise after it (and the reverse): the compile loop then handles the two
+        # halves of a controlled gate's noise separately
+        def before(nz):
+            nz.noise_parameters["After gate"] = False
+            return nz
+        full = {"e": {"Hadamard": before(nm.PauliError("Z")), "SigmaX": nm.PauliError("X"), "Phase": before(nm.DepolarizingNoise(0.1875))},
+                "p": {"Hadamard": nm.PhotonLoss(0.25), "Phase": before(nm.PauliError("Y"))},
+                "ee": {"CNOT": [nm.PauliError("X"), before(nm.PauliError("Z"))]},
+                "ep": {"CNOT": [before(nm.PauliError("Z")), nm.PauliError("X")]}}
     return full, empty
+
+
+MIXED_PLACEMENT = [False]
 
 
 def history(tid, rng, steps):
@@ -82,6 +95,7 @@ def history(tid, rng, steps):
     from graphiq.backends.stabilizer.compiler import StabilizerCompiler
     from graphiq.backends.density_matrix.compiler import DensityMatrixCompiler
     from graphiq.solvers.time_reversed_solver import TimeReversedSolver
+    MIXED_PLACEMENT[0] = rng.random() < 0.5
     full, empty = noise_maps()
     wrappers = cz.library_wrappers()
     objs = {}
@@ -252,6 +266,7 @@ def rewrite_trace(tid, rng):
         events.append(e)
         return e["ret"]
 
+    MIXED_PLACEMENT[0] = rng.random() < 0.5
     full, empty = noise_maps()
     c2 = step("copy", "1", lambda c: c.copy(), True)
     step("group", c2, lambda c: c.group_one_qubit_gates(), False)
@@ -277,7 +292,24 @@ def rewrite_trace(tid, rng):
     c5 = step("copy", "1", lambda c: c.copy(), True)
     step("rm_identity", c5, lambda c: c.remove_identity(), False)
     step("assign_noise_empty", "1", lambda c: c.assign_noise(empty), True)
-    return {"tid": tid, "meta": {"kind": "rewrites", "program": prog}, "init": init, "events": events}
+    # a noisy copy compiled with noise simulation on, twice, by each backend: compiling must leave the circuit (its noise
+    # descriptors included) as it was, so that a repeated compile means the same
+    if all(s["k"] != "MeasurementZ" for s in prog):
+        from graphiq.backends.stabilizer.compiler import StabilizerCompiler
+        from graphiq.backends.density_matrix.compiler import DensityMatrixCompiler
+        c6 = step("assign_noise", "1", lambda c: c.assign_noise(full), True)
+        if c6:
+            for cls in (DensityMatrixCompiler, StabilizerCompiler, DensityMatrixCompiler):
+                def noisy(c, cls=cls):
+                    comp = cls()
+                    comp.noise_simulation = True
+                    comp.measurement_determinism = 1
+                    try:
+                        comp.compile(c)
+                    except Exception:
+                        pass        # unsupported combinations are C06's business; the frame is ours
+                step("compile_noisy", c6, noisy, False)
+    return {"tid": tid, "meta": {"kind": "rewrites", "program": prog, "mixed_placement": MIXED_PLACEMENT[0]}, "init": init, "events": events}
 
 
 def run(ctx):
